@@ -378,7 +378,7 @@ def text_event_key(ev):
     return f"{t}:{_sig(ev.get('in'))}"
 
 
-def text_trace_validate(chk, name, trace_path, what, only=None, max_rounds=40):
+def text_trace_validate(chk, name, trace_path, what, only=None, max_rounds=12):
     """TLC validates the events with Trace_Text; on a rejection the event is recorded, every event with the same
     class signature is set aside and validation continues, so that independent defects are all reported."""
     lines = [l for l in open(trace_path) if l.strip()]
@@ -408,7 +408,7 @@ def text_trace_validate(chk, name, trace_path, what, only=None, max_rounds=40):
             keep = lines[:idx - 1] + lines[idx:]
         lines = keep
     else:
-        raise ToolError(f"{name}: more than {max_rounds} distinct rejections; giving up")
+        log(f"[trace] {name}: stopped after {max_rounds} distinct rejection classes (there may be more)")
     chk.traces += len(lines)
     log(f"[trace] {name}: {total} events, {len(rejected)} distinct rejection classes, {len(lines)} accepted")
     return rejected
